@@ -337,4 +337,25 @@ func init() {
 		Variant{Name: "owner lookup before trying the local stream", Property: "C09", File: shm,
 			Old: "\tlogger = log.With(logger, tag.NewStringTag(\"task-target-shard\", ClusterShardIDtoString(targetShard)))\n\n\t// Try local delivery first\n\tif ch, ok := sm.GetRemoteSendChan(targetShard); ok {", New: "\tlogger = log.With(logger, tag.NewStringTag(\"task-target-shard\", ClusterShardIDtoString(targetShard)))\n\n\tif owner, ok := sm.getShardOwner(targetShard); ok && owner != sm.GetNodeName() {\n\t\tif mgr := sm.GetIntraProxyManager(); mgr != nil {\n\t\t\treturn mgr.sendReplicationMessages(context.Background(), owner, targetShard, routedMsg.SourceShard, routedMsg.Resp) == nil\n\t\t}\n\t}\n\t// Try local delivery first\n\tif ch, ok := sm.GetRemoteSendChan(targetShard); ok {", Expect: "O9.1"},
 	)
+	// ---- C05
+	addVariants(
+		Variant{Name: "ensureCapacity copies entries[i] without head", Property: "C05", File: pst,
+			Old: "\t\tidx := (b.head + i) % len(b.entries)\n\t\tnewEntries[i] = b.entries[idx]", New: "\t\tnewEntries[i] = b.entries[i]", Expect: "O5.1"},
+		Variant{Name: "head not reset after growth", Property: "C05", File: pst,
+			Old: "\tb.entries = newEntries\n\tb.head = 0\n", New: "\tb.entries = newEntries\n", Expect: "O5.2"},
+		Variant{Name: "Discard does not advance startProxyID", Property: "C05", File: pst,
+			Old: "\tb.size -= count\n\tb.startProxyID += int64(count)\n", New: "\tb.size -= count\n", Expect: "O5.3"},
+		Variant{Name: "Discard advances startProxyID by the unclamped count", Property: "C05", File: pst,
+			Old: "func (b *proxyIDRingBuffer) Discard(count int) {\n\tif count <= 0 {\n\t\treturn\n\t}\n", New: "func (b *proxyIDRingBuffer) Discard(count int) {\n\tif count <= 0 {\n\t\treturn\n\t}\n\trequested := count\n\tdefer func() { b.startProxyID += int64(requested - count) }()\n", Expect: "O5.3"},
+		Variant{Name: "exclusive watermark in AggregateUpTo", Property: "C05", File: pst,
+			Old: "\tcount64 := watermark - b.startProxyID + 1\n", New: "\tcount64 := watermark - b.startProxyID\n", Expect: "O5.3"},
+		Variant{Name: "AggregateUpTo consumes what it aggregates", Property: "C05", File: pst,
+			Old: "\t\t\tresult[m.sourceShard] = m.sourceTask\n\t\t}\n\t}\n\treturn result, count", New: "\t\t\tresult[m.sourceShard] = m.sourceTask\n\t\t}\n\t}\n\tb.head = (b.head + count) % len(b.entries)\n\treturn result, count", Expect: "O5.3"},
+		Variant{Name: "final store of Append without a capacity check", Property: "C05", File: pst,
+			Old: "\t// Inserting holes above may have filled the buffer\n\tb.ensureCapacity()\n", New: "", Expect: "O5.2"},
+		Variant{Name: "length cached across growth in Append", Property: "C05", File: pst,
+			Old: "\t\t\t\tb.ensureCapacity()\n\t\t\t\tpos := (b.head + b.size) % len(b.entries)\n", New: "\t\t\t\tn := len(b.entries)\n\t\t\t\tb.ensureCapacity()\n\t\t\t\tpos := (b.head + b.size) % n\n", Expect: "O5.1"},
+		Variant{Name: "copy loop stops one short", Property: "C05", File: pst,
+			Old: "\tfor i := 0; i < b.size; i++ {\n\t\tidx := (b.head + i) % len(b.entries)\n\t\tnewEntries[i] = b.entries[idx]", New: "\tfor i := 1; i < b.size; i++ {\n\t\tidx := (b.head + i) % len(b.entries)\n\t\tnewEntries[i] = b.entries[idx]", Expect: "O5.2"},
+	)
 }
